@@ -126,6 +126,28 @@ def describe(x):
         return "?"
 
 
+def outside_view(a):
+    """bytes of the buffer an ndarray VIEW lives in that the view does not cover (a documented out= view may be
+    written, the memory around it may not); None when `a` owns its data"""
+    import numpy as np
+    base = a
+    while isinstance(getattr(base, "base", None), np.ndarray):
+        base = base.base
+    if base is a or not isinstance(a, np.ndarray):
+        return None
+    covered = np.zeros(base.size * base.itemsize, dtype=bool)
+    lo = a.__array_interface__["data"][0] - base.__array_interface__["data"][0]
+    idx = np.zeros(a.shape, dtype=np.int64) + lo
+    for ax, (n_, st) in enumerate(zip(a.shape, a.strides)):
+        shp = [1] * a.ndim
+        shp[ax] = n_
+        idx = idx + (np.arange(n_) * st).reshape(shp)
+    for off in range(a.itemsize):
+        covered[(idx + off).ravel()] = True
+    raw = np.frombuffer(np.ascontiguousarray(base).tobytes() if not base.flags["C_CONTIGUOUS"] else base.tobytes(), dtype=np.uint8)
+    return hashlib.sha1(raw[~covered].tobytes()).hexdigest()
+
+
 def main():
     build, poison = sys.argv[1], sys.argv[2] == "1"
     sys.path.insert(0, build)
@@ -164,6 +186,7 @@ def main():
                 del args
             args = PR.make_args(job["routine"], job["argset"])
             before = [digest(a, True) for a in args]
+            around = [outside_view(a) for a in args]
             fn = PR.ROUTINES[job["routine"]]
             try:
                 res, raised = fn(*args), None
@@ -172,6 +195,8 @@ def main():
             if raised is None:
                 rec["digest"] = digest(res)          # a value without projection is a worker error (TypeError)
                 rec["value"] = describe(res)
+                if job["routine"].endswith("_twice"):      # the routine made the same call twice: (first, second)
+                    rec["repeat_same"] = digest(res[0]) == digest(res[1])
             else:
                 rec["digest"] = "raised:" + type(raised).__name__
                 rec["value"] = "%s: %s" % (type(raised).__name__, str(raised)[:200])
@@ -181,6 +206,8 @@ def main():
             # every argument except the documented out= positions must be bit-identical after the call
             may_write = PR.writes(job["routine"])
             changed = [i for i, (x, y) in enumerate(zip(before, after)) if x != y and i not in may_write]
+            # ... and a writable VIEW may change, the buffer around it may not
+            changed += [i for i, a in enumerate(args) if around[i] is not None and outside_view(a) != around[i]]
             rec["args_same"] = not changed
             if changed:
                 rec["args_changed"] = changed
